@@ -252,3 +252,87 @@ for qcls in (Signal, Variable, Temporary):
             c.models = [(k.__dict__["__init__"], _tq_init_model) for k in (TypeQualifier, Signal, Variable, Temporary) if "__init__" in k.__dict__]
             c.models.append((BitVector.__dict__["_is_uninitialized"], lambda it, self: not self.fields.get("known", True)))
             con.cases.append(c)
+
+
+# arrays initialised from a LIST: the declared array type's own constructor applies the conversion matrix element by element
+# (Array[Unsigned[8], 2]([signed, unsigned]) is rejected outside a context); inside a context the list must go through that
+# constructor too -- with the placeholder VALUES of the elements -- otherwise the backend casts every element with
+# format_cast, which reinterprets an equal-width Signed as Unsigned.
+class _ArrayType:
+    """the declared array type (type(self)._Wrapped): constructing it checks the elements"""
+
+
+def array_init_spec(accepts):
+    def spec(sx, self, value=None, **kw):
+        it = sx.it
+        if not accepts:
+            sx.reject(AssertionError)
+
+        def holds(res):
+            if not (isinstance(res, SObj) and res.kind is _IntrinsicDeclaration and res.fields.get("new_obj") is sx.real_args[0] and res.fields.get("assigned_value") is sx.real_args[1]):
+                return False
+            # one construction of the declared type over the VALUES of the listed elements, in order
+            return len(it.constructed) == 1 and len(it.constructed[0]) == 2 and it.constructed[0][0] is it.elem_values[0] and it.constructed[0][1] is it.elem_values[1]
+
+        return C.Pred(holds, "the declared array type was constructed from the element values (its check decides), then the declaration")
+
+    return spec
+
+
+for qcls in (Signal, Variable):
+    con = contract(TQMOD + ("Signal._init_replacement" if qcls is Signal else "TypeQualifier._init_replacement"), PROPS)
+    for accepts in (True, False):
+        for seq in (list, tuple):
+            def mk_list(env, seq=seq):
+                elems = [SObj(Signal, f_tag=f"element{i}", _value=SObj(_ArrayType, f_tag=f"value of element{i}"), _ref_spec=[]) for i in range(2)]
+                env["__elems__"] = elems
+                return seq(elems)
+
+            c = Case(f"{qcls.__name__}[Array]<-{seq.__name__}-of-qualified-elements,{'accepted' if accepts else 'rejected'}-by-the-array-type",
+                     [Built([], (lambda q: lambda env: SObj(SCls(q, wrapped=_ArrayType), _Wrapped=_ArrayType))(qcls), lambda a: "<new object>", lambda a: None), Built([], mk_list, lambda a: "<list>", lambda a: None)], array_init_spec(accepts))
+            c.native = False
+            c.models = [(k.__dict__["__init__"], lambda it, self, value=None, **kw: None) for k in (TypeQualifier, Signal, Variable, Temporary) if "__init__" in k.__dict__]
+
+            def _arr_setup(it, ctx, args, env, accepts=accepts):
+                it.constructed = []
+                it.elem_values = [e.fields["_value"] for e in (args[1] if isinstance(args[1], (list, tuple)) else [])]
+
+                def construct(it_, a, kw):
+                    it.constructed.append(list(a[0]))
+                    if not accepts:
+                        from pyvc.values import PyExc
+
+                        raise PyExc(AssertionError, ("cannot initialize unsigned type from signed",), where="array constructor")
+                    return SObj(_ArrayType)
+
+                it.class_call_models = {_ArrayType: construct}
+
+            c.setup = _arr_setup
+            c.custom_replay = "contracts.c05_setters.replay_array_list_init"
+            con.cases.append(c)
+
+_ARRAY_LIST_INIT = '''
+from cohdl import Entity, Port, Bit, Unsigned, Signed, Variable, Array, std
+class E(Entity):
+    clk = Port.input(Bit)
+    s8 = Port.input(Signed[8])
+    u8 = Port.input(Unsigned[8])
+    o = Port.output(Unsigned[8])
+    def architecture(self):
+        @std.sequential(std.Clock(self.clk))
+        def proc():
+            arr = Variable[Array[Unsigned[8], 2]]([self.s8, self.u8])     # a Signed element for an Unsigned array
+            self.o <<= arr[0]
+try:
+    t = std.VhdlCompiler.to_string(E)
+    print("ACCEPTED", [l.strip() for l in t.splitlines() if "=> unsigned(std_logic_vector(s8))" in l])
+except AssertionError as e:
+    print("REJECTED", str(e)[:80])
+'''
+
+
+def replay_array_list_init(payload):
+    from contracts.c06_extra import _run_design
+
+    rc, out = _run_design(_ARRAY_LIST_INIT)
+    return {"reproduced": rc == 0 and "ACCEPTED" in out, "detail": out[-300:]}
